@@ -133,7 +133,7 @@ func runC18(c *Ctx) {
 	var pool *ssa.Call
 	okPool := false
 	if vs := fs["RootCAs"]; len(vs) == 1 {
-		if cv, ok := vs[0].(*ssa.Call); ok && calleeName(cv) == "crypto/x509.NewCertPool" {
+		if cv, ok := w.canon(tc, vs[0]).(*ssa.Call); ok && calleeName(cv) == "crypto/x509.NewCertPool" {
 			pool, okPool = cv, true
 		}
 	}
@@ -141,6 +141,11 @@ func runC18(c *Ctx) {
 	if pool != nil {
 		f := w.Facts(tc)
 		nAdd := 0
+		poolFn := pool.Parent() // tc itself, or the helper that builds the pool
+		if poolFn != tc {
+			c.Saw(poolFn)
+			c.Check(w.failurePropagates(tc, poolFn), "R1.config", "TLSClientConfiguration|CA pool helper's error ends the configuration", w.FnPos(poolFn), "the error of "+shortFn(poolFn)+" is returned", "an error of the helper that loads the CA files does not fail the configuration")
+		}
 		if refs := pool.Referrers(); refs != nil {
 			for _, r := range *refs {
 				call, ok := r.(*ssa.Call)
@@ -149,6 +154,9 @@ func runC18(c *Ctx) {
 						continue
 					}
 					if _, isDbg := r.(*ssa.DebugRef); isDbg {
+						continue
+					}
+					if _, isRet := r.(*ssa.Return); isRet && poolFn != tc {
 						continue
 					}
 					c.Bad("R1.config", "TLSClientConfiguration|pool used only for the configured files", w.Pos(r.Pos()), "the root pool is used by "+r.String())
@@ -165,7 +173,7 @@ func runC18(c *Ctx) {
 					if rd, ok := strip(data).(*ssa.Extract); ok {
 						if rc, ok := rd.Tuple.(*ssa.Call); ok {
 							isNil, known := f.KnownNil(call.Block(), extractOf(rc, 1))
-							c.Check(known && isNil && w.ErrEdgeEnds(tc, extractOf(rc, 1)), "R1.config", "TLSClientConfiguration|CA file read error checked", w.Pos(rc.Pos()), "must-fact ReadFile err == nil; the error edge returns a non-nil error", "a CA file that cannot be read is silently skipped")
+							c.Check(known && isNil && w.ErrEdgeEnds(poolFn, extractOf(rc, 1)), "R1.config", "TLSClientConfiguration|CA file read error checked", w.Pos(rc.Pos()), "must-fact ReadFile err == nil; the error edge returns a non-nil error", "a CA file that cannot be read is silently skipped")
 							// the index is a forward range over the parameter
 							if ia, ok := rc.Call.Args[0].(*ssa.UnOp); ok {
 								if idx, ok := ia.X.(*ssa.IndexAddr); ok {
@@ -176,10 +184,10 @@ func runC18(c *Ctx) {
 					}
 					// ok result checked: !ok returns a non-nil error
 					okChecked := false
-					for _, r := range liveReturns(tc) {
+					for _, r := range liveReturns(poolFn) {
 						if v, known := f.KnownBool(r.Block(), call); known && !v {
 							good := true
-							for _, lf := range w.Leaves(r.Results[1], r) {
+							for _, lf := range w.Leaves(r.Results[len(r.Results)-1], r) {
 								if !w.NonNil(lf.Val, lf.Facts) {
 									good = false
 								}
